@@ -20,6 +20,18 @@ def _u32le(b, p):
     return b[p] | (b[p + 1] << 8) | (b[p + 2] << 16) | (b[p + 3] << 24)
 
 
+def checksum(b):
+    """LIS-79 physical record checksum of the bytes before it (header, data, record and file number): the 16-bit words are added with
+    end-around carry, the sum being rotated left by one bit after every word; it starts from zero for every physical record."""
+    c = 0
+    for i in range(0, len(b) - 1, 2):
+        c += (b[i] << 8) | b[i + 1]
+        if c > 0xffff:
+            c = (c & 0xffff) + 1
+        c = ((c << 1) & 0xffff) | (c >> 15)
+    return c
+
+
 def decode(buf, tif):
     pos = 0
     n = len(buf)
@@ -70,6 +82,9 @@ def decode(buf, tif):
             # the record number is a 16-bit count of the physical records written so far (starting at 0, wrapping at 65536)
             if _u16(buf, pos + ln - tail) != pr_index % 65536:
                 raise LayoutError('physical record %d carries record number %d' % (pr_index, _u16(buf, pos + ln - tail)))
+        if attr & (1 << 12):
+            if _u16(buf, pos + ln - 2) != checksum(buf[pos:pos + ln - 2]):
+                raise LayoutError('physical record %d carries checksum %#06x, the checksum of its bytes is %#06x' % (pr_index, _u16(buf, pos + ln - 2), checksum(buf[pos:pos + ln - 2])))
         pr_index += 1
         data = buf[pos + 4:pos + ln - tail]
         if not pred:
